@@ -2,7 +2,7 @@
    operators and count aggregations composed arbitrarily; every node's stream
    against the reference evaluation of the node. *)
 From Coq Require Import List ZArith NArith Bool Lia Permutation.
-From Verif Require Import Base Grid Select SelectProofs Shard SelectorProofs Exec Compose StreamWF Range MatrixRun Agg AggProofs Func Bin BinProofs EndToEnd AggEnd Topk TopkProofs TopkTree.
+From Verif Require Import Base Grid Select SelectProofs Shard SelectorProofs Exec Compose StreamWF Range MatrixRun Agg AggProofs Func Bin BinProofs EndToEnd AggEnd Topk TopkProofs TopkTree Remote.
 Import ListNotations.
 Open Scope Z_scope.
 
@@ -31,6 +31,12 @@ Inductive jtree :=
 | JAgg (init : Z -> Z) (add : Z -> Z -> Z) (without : bool) (grouping : list N) (t : jtree)
 (* topk / bottomk [by|without] (k, t) with a literal k; the heaps of kAggregate, per step *)
 | JTopk (bottom : bool) (k : nat) (without : bool) (grouping : list N) (t : jtree)
+(* logicalplan.RemoteExecution: the subtree is run as a query of its own (by another engine) on
+   the same window and its result read back with lookback 0 (Remote.v) *)
+| JRemote (t : jtree)
+(* logicalplan.Coalesce of two subtrees (exchange.coalesceOperator): the series lists are
+   concatenated, sample IDs of the second re-based *)
+| JConcat (l r : jtree)
 (* a step-invariant subtree (StepInvariantExpr): evaluated once on the window [start, start]
    and repeated at every step by the stepInvariantOperator *)
 | JInvariant (t : jtree).
@@ -41,6 +47,8 @@ Fixpoint jseries (t : jtree) : list labels :=
   | JLeaf ls _ _ _ => ls
   | JRange keep _ _ ls _ _ _ => map (fun m => if keep then m else del_name m) ls
   | JTopk _ _ _ _ t => jseries t
+  | JRemote t => jseries t
+  | JConcat l r => jseries l ++ jseries r
   | JInvariant t => jseries t
   | JJoin p l r => op_series (jp_on p) (jp_ml p) (jp_incl p) (jp_card p) (jp_bool p) (jp_drops p) (jseries l) (jseries r)
   | JMap drops _ t => map (fun m => if drops then del_name m else m) (jseries t)
@@ -134,6 +142,8 @@ Definition topk_vec (bottom : bool) (k : nat) (without : bool) (grouping : list 
            (vec : list (nat * Z)) : list (nat * Z) :=
   topk_step Z (ltk bottom) (nonan Z) k (inputs without grouping slabels) (length (groups without grouping slabels)) vec.
 
+Definition shift_ids (n : nat) (vec : list (nat * Z)) : list (nat * Z) := map (fun iv => ((n + fst iv)%nat, snd iv)) vec.
+
 Fixpoint zip_vecs (L R : list (Z * list (nat * Z))) : list (Z * list (nat * Z) * list (nat * Z)) :=
   match L, R with
   | (t, a) :: L', (_, b) :: R' => (t, a, b) :: zip_vecs L' R'
@@ -186,6 +196,17 @@ Fixpoint jrun (cf : cfg) (w : window) (t : jtree) {struct t} : list (Z * list (n
       | inl strm => inl (map (fun tv => (fst tv, topk_vec bottom k without grouping (jseries t) (snd tv))) strm)
       | inr e => inr e
       end
+  | JRemote t =>
+      match jrun cf w t with
+      | inl strm => inl (reread (c_batch cf) w (length (jseries t)) strm)
+      | inr e => inr e
+      end
+  | JConcat l r =>
+      match jrun cf w l, jrun cf w r with
+      | inl L, inl R => inl (map (fun tab => (fst (fst tab), snd (fst tab) ++ shift_ids (length (jseries l)) (snd tab))) (zip_vecs L R))
+      | inr e, _ => inr e
+      | _, inr e => inr e
+      end
   | JInvariant t =>
       (* cacheInputVector: one Next of the child, built for [start, start]; then one copy per step *)
       match jrun cf (pinned_window w) t with
@@ -237,6 +258,12 @@ Fixpoint jref (lb : Z) (t : jtree) (ts : Z) : option (list (labels * Z)) :=
       | Some smp => ref_topk bottom k without grouping smp
       | None => None
       end
+  | JRemote t => jref lb t ts
+  | JConcat l r =>
+      match jref lb l ts, jref lb r ts with
+      | Some A, Some B => Some (A ++ B)
+      | _, _ => None
+      end
   | JInvariant t => jref lb t ts
   end.
 
@@ -250,6 +277,8 @@ Fixpoint jpinned (t : jtree) : Prop :=
   | JCount _ _ _ t => jpinned t
   | JAgg _ _ _ _ t => jpinned t
   | JTopk _ _ _ _ t => jpinned t
+  | JRemote t => jpinned t
+  | JConcat l r => jpinned l /\ jpinned r
   | JInvariant t => jpinned t
   end.
 
@@ -270,6 +299,8 @@ Fixpoint jokw (single : bool) (t : jtree) : Prop :=
   | JAgg init add _ _ t =>
       jokw single t /\ (forall a b, add (init a) b = add (init b) a) /\ (forall x a b, add (add x a) b = add (add x b) a)
   | JTopk _ _ _ _ t => jokw single t
+  | JRemote t => jokw single t
+  | JConcat l r => jokw single l /\ jokw single r
   | JInvariant t => jokw true t /\ jpinned t
   end.
 
@@ -594,6 +625,8 @@ Fixpoint jdenote (lb : Z) (t : jtree) (ts : Z) : list (nat * Z) :=
                (agg_step init add without grouping (jseries t1)
                          (repeat doacc (length (groups without grouping (jseries t1)))) (jdenote lb t1 ts))
   | JTopk bottom k without grouping t1 => topk_vec bottom k without grouping (jseries t1) (jdenote lb t1 ts)
+  | JRemote t1 => vec_of (by_id (length (jseries t1)) ts (jdenote lb t1 ts))
+  | JConcat l r => jdenote lb l ts ++ shift_ids (length (jseries l)) (jdenote lb r ts)
   | JInvariant t1 => jdenote lb t1 ts
   end.
 
@@ -628,7 +661,7 @@ Qed.
 
 Lemma jdenote_pinned_indep lb t : jpinned t -> forall ts ts', jdenote lb t ts = jdenote lb t ts'.
 Proof.
-  induction t as [ls sers off pin|keep fn range ls sers off pin|p l IHl r IHr|drops f t IH|conv without grouping t IH|init add without grouping t IH|bottom k without grouping t IH|t IH];
+  induction t as [ls sers off pin|keep fn range ls sers off pin|p l IHl r IHr|drops f t IH|conv without grouping t IH|init add without grouping t IH|bottom k without grouping t IH|t IH|l IHl r IHr|t IH];
     intros Hp ts ts'; cbn [jdenote jpinned] in *.
   - destruct pin; [reflexivity|congruence].
   - destruct pin; [reflexivity|congruence].
@@ -637,6 +670,8 @@ Proof.
   - rewrite (IH Hp ts ts'). reflexivity.
   - rewrite (IH Hp ts ts'). reflexivity.
   - rewrite (IH Hp ts ts'). reflexivity.
+  - rewrite (IH Hp ts ts'). unfold by_id, stepvec_of, vec_of. destruct (collect 0 _); reflexivity.
+  - destruct Hp as [Hl Hr]. rewrite (IHl Hl ts ts'), (IHr Hr ts ts'). reflexivity.
   - apply IH. assumption.
 Qed.
 
@@ -654,7 +689,7 @@ Lemma jtree_matches_reference_gen cf :
                forall R, jref (c_lookback cf) t ts = Some R ->
                          Permutation (labelled Z (jseries t) (jdenote (c_lookback cf) t ts)) R.
 Proof.
-  intros HN HB Hlb. induction t as [ls sers off pin|keep fn range ls sers off pin|p l IHl r IHr|drops f t IH|conv without grouping t IH|init add without grouping t IH|bottom k without grouping t IH|t IH];
+  intros HN HB Hlb. induction t as [ls sers off pin|keep fn range ls sers off pin|p l IHl r IHr|drops f t IH|conv without grouping t IH|init add without grouping t IH|bottom k without grouping t IH|t IH|l IHl r IHr|t IH];
     intros single Hok w Hw Hstart Hsingle.
   - destruct Hok as [Hlen [Hs Hpin]]. cbn [jdenote]. split.
     + cbn [jrun]. rewrite (run_covers_grid cf w (PSelect sers (eff_off w off pin)) HN HB Hlb Hw Hs). simpl denote. rewrite map_map.
@@ -934,6 +969,41 @@ Proof.
         fold (labelled Z sl (filter (step_keep Z (ltk bottom) (inputs without grouping sl) k (g ts)) (g ts))).
         rewrite (labelled_filter_keep bottom k without grouping sl (g ts) G1).
         apply ref_keep_filter_perm. exact PG.
+  - (* remote execution *)
+    destruct (IH single Hok w Hw Hstart Hsingle) as [Eg Pg]. cbn [jdenote jseries jref]. set (g := jdenote (c_lookback cf) t) in *.
+    set (sl := jseries t) in *. split.
+    + cbn [jrun]. rewrite Eg. fold sl. rewrite (reread_identity (c_batch cf) w (length sl) g HB Hw). reflexivity.
+    + intros ts. destruct (Pg ts) as [[G1 G2] PG].
+      assert (Hwf : wf_stepvec (length sl) (by_id (length sl) ts (g ts))).
+      { unfold by_id. rewrite <- (seq_length (length sl) 0) at 1. rewrite <- (map_length (fun i => vlookup i (g ts))). apply stepvec_of_wf. }
+      destruct (vec_of_good _ _ Hwf) as [B1 B2]. split; [split; assumption|].
+      intros R HR. eapply Permutation_trans; [|exact (PG R HR)].
+      unfold labelled. apply Permutation_map. apply NoDup_Permutation.
+      * apply (NoDup_map_inv fst). exact B2.
+      * apply (NoDup_map_inv fst). exact G2.
+      * intros [i v]. apply by_id_in; assumption.
+  - (* coalesce *)
+    destruct Hok as [Hokl Hokr].
+    destruct (IHl single Hokl w Hw Hstart Hsingle) as [El Pl]. destruct (IHr single Hokr w Hw Hstart Hsingle) as [Er Pr].
+    cbn [jdenote jseries jref]. set (fl := jdenote (c_lookback cf) l) in *. set (fr := jdenote (c_lookback cf) r) in *.
+    set (n1 := length (jseries l)). split.
+    + cbn [jrun]. rewrite El, Er, zip_vecs_map, map_map. reflexivity.
+    + intros ts. destruct (Pl ts) as [[A1 A2] PL]. destruct (Pr ts) as [[B1 B2] PR]. split.
+      * split.
+        -- intros iv Hiv. rewrite app_length. apply in_app_or in Hiv. destruct Hiv as [Hiv|Hiv].
+           ++ specialize (A1 iv Hiv). lia.
+           ++ unfold shift_ids in Hiv. apply in_map_iff in Hiv. destruct Hiv as [jv [<- Hjv]]. simpl. specialize (B1 jv Hjv). fold n1. lia.
+        -- rewrite map_app. apply NoDup_app_disjoint; [exact A2| |].
+           ++ unfold shift_ids. rewrite map_map. simpl. rewrite <- (map_map fst (fun i => (n1 + i)%nat)).
+              apply FinFun.Injective_map_NoDup; [intros a b; lia|exact B2].
+           ++ intros i Hi1 Hi2. apply in_map_iff in Hi1. destruct Hi1 as [iv [<- Hiv]]. specialize (A1 iv Hiv).
+              unfold shift_ids in Hi2. rewrite map_map in Hi2. apply in_map_iff in Hi2. destruct Hi2 as [jv [E _]]. simpl in E. fold n1 in A1. lia.
+      * intros R HR. destruct (jref (c_lookback cf) l ts) as [A|] eqn:EA; [|discriminate].
+        destruct (jref (c_lookback cf) r ts) as [B|] eqn:EB; [|discriminate]. inversion HR; subst R.
+        unfold labelled. rewrite map_app. apply Permutation_app.
+        -- erewrite map_ext_in; [exact (PL A eq_refl)|]. intros iv Hiv. simpl. rewrite app_nth1 by (apply A1; assumption). reflexivity.
+        -- unfold shift_ids. rewrite map_map. erewrite map_ext_in; [exact (PR B eq_refl)|]. intros iv Hiv. simpl.
+           rewrite app_nth2 by (fold n1; lia). fold n1. replace (n1 + fst iv - n1)%nat with (fst iv) by lia. reflexivity.
   - destruct Hok as [Hok Hp]. cbn [jrun jdenote jseries jref].
     assert (Hwp : wf_window (pinned_window w)).
     { destruct Hw as [_ [Hst _]]. unfold pinned_window, wf_window. simpl. repeat split; try lia. }
